@@ -56,7 +56,7 @@ func main() {
 		Workers: 4,
 		Timeout: 30 * time.Second,
 		Rule: "kind=prov: random request lists (name(n,sleep), sleep(ms), malformed items, several weighted scenarios, duplicate names) through the real http/scenario provider plugin; " +
-			"kind=gun: random scenarios with chains of captured variables, [next]/[idx]/[last]/[rand] preprocessors, jsonpath/header extractors and assertions shot by the real http/scenario gun (1 and 4 instances) at scripted targets that fail chosen steps; " +
+			"kind=gun: random scenarios with chains of captured variables, [next]/[idx]/[last]/[rand] preprocessors, jsonpath/header extractors and assertions shot by the real http/scenario gun (1 and 4 instances) at scripted targets that fail chosen steps (transport, bad JSON, missing key, status), data sources of 0..60 rows; " +
 			"non-trivial = at least two steps or two scenarios",
 	})
 }
